@@ -2,15 +2,22 @@
 (* Deterministic trace specification over CrashModel.  Driver events move the *)
 (* transaction state; every I/O event carries the observation made on the     *)
 (* crash image taken right after it (restart outcome, rows recovered, whether *)
-(* a new statement was accepted), the same for torn variants of the next log  *)
-(* write and, nested, for every crash point inside the recovery run.          *)
+(* a new statement was accepted); a log write event also carries the          *)
+(* observations on the torn variants of that write (crash inside it; judged   *)
+(* against the state before it) and, nested, every crash point inside the     *)
+(* recovery run.                                                              *)
 (*   C01.restart  restart on a crash image failed / hung                      *)
 (*   C01.lost     a row of a returned commit is missing or has an older value *)
 (*   C01.refuse   the restarted database did not accept a new statement       *)
 (*   C02.phantom  a recovered row was written by a transaction that was       *)
 (*                neither committed nor committing (active, aborted, aborting)*)
 (*   C02.partial  some but not all writes of a committing transaction present *)
-(*   C08.wal      a user-table page written with a page LSN not yet durable   *)
+(*   C02.restart  restart failed on an image whose history has unfinished or   *)
+(*                aborted transactions                                         *)
+(*   C02.unrestored a row updated / deleted by an unfinished or aborted        *)
+(*                transaction does not hold its last committed value           *)
+(*   C08.wal      a user-table page written with a page LSN not yet durable, or  *)
+(*                linking to a next page whose NewTablePage record is not      *)
 (*   C08.commit   a writing transaction's commit returned before its COMMIT   *)
 (*                record was handed to WriteLog                               *)
 (*   C08.log      a log write is not a sequence of complete records with      *)
@@ -18,8 +25,12 @@
 (*   C20.*        the same observations on crash points inside recovery       *)
 EXTENDS CrashModel, TraceKit
 
-VARIABLES l, viol
-tvars == <<cvars, l, viol>>
+VARIABLES l, viol,
+          durNew,    \* page ids whose NewTablePage record is in a completed log write
+          writers,   \* engine transaction ids with a data record in a completed log write
+          early      \* engine ids whose commit returned (CommitDone marker) before their COMMIT record was durable
+tvars == <<cvars, l, viol, durNew, writers, early>>
+xvars == <<durNew, writers, early>>
 V(tag, ln, info) == <<[tag |-> tag, line |-> ln, info |-> info, kf |-> "new"]>>
 
 RowsOf(p) == {<<p.rows[i][1], p.rows[i][2]>> : i \in DOMAIN p.rows}
@@ -28,6 +39,9 @@ OwnerState(v) == IF v \in DOMAIN owner THEN st[owner[v]] ELSE "unknown"
 (* classify one observation against the acceptable set; pfx is "C01"/"C02" or "C20" *)
 Classify(p, ln, c1, c2, what) ==
   IF p.restart # "ok" THEN V(c1 \o ".restart", ln, <<what, p.restart>>)
+       \* no recovered state at all: with unfinished or aborted transactions in the history this is also C02's failure
+       \o (IF c2 # c1 /\ \E t \in DOMAIN st : st[t] \in {"active", "committing", "aborting", "aborted"}
+             THEN V(c2 \o ".restart", ln, <<what, p.restart>>) ELSE <<>>)
   ELSE LET T == RowsOf(p) IN
     (IF ~p.accepts THEN V(c1 \o ".refuse", ln, <<what>>) ELSE <<>>)
     \o (IF T \in Acceptable /\ Cardinality(T) = Len(p.rows) THEN <<>>
@@ -37,6 +51,11 @@ Classify(p, ln, c1, c2, what) ==
                  lostK2 == {k \in lostK : ~(k \notin KeysOf(T) /\ \E t \in Committing : \E i \in DOMAIN pend[t] : pend[t][i].op = "del" /\ pend[t][i].k = k)}
              IN (IF phantom # {} THEN V(c2 \o ".phantom", ln, <<what, phantom, [r \in phantom |-> OwnerState(r[2])]>>) ELSE <<>>)
              \o (IF lostK2 # {} THEN V(c1 \o ".lost", ln, <<what, "keys", lostK2, "committed", {r \in db : r[1] \in lostK2}, "found", {r \in T : r[1] \in lostK2}>>) ELSE <<>>)
+             \* the same keys, seen from C02: a row that an unfinished or aborted transaction updated or deleted does not
+             \* hold its last committed value after recovery
+             \o (LET unrest == {k \in lostK2 : \E t \in DOMAIN st : st[t] \in {"active", "committing", "aborting", "aborted"}
+                                                   /\ \E i \in DOMAIN pend[t] : pend[t][i].k = k /\ pend[t][i].op \in {"upd", "del"}} IN
+                 IF unrest # {} THEN V(c2 \o ".unrestored", ln, <<what, "keys", unrest, "committed", {r \in db : r[1] \in unrest}, "found", {r \in T : r[1] \in unrest}>>) ELSE <<>>)
              \o (IF phantom = {} /\ lostK2 = {} THEN V(c2 \o ".partial", ln, <<what, "found", T, "committed", db>>) ELSE <<>>))
 
 RECURSIVE NestedChecks(_, _, _)
@@ -46,7 +65,7 @@ NestedChecks(ns, ln, i) ==
 RECURSIVE TornChecks(_, _, _)
 TornChecks(ts, ln, i) ==
   IF i > Len(ts) THEN <<>>
-  ELSE Classify(ts[i], ln, "C01", "C02", <<"next log write torn at byte", ts[i].cut>>) \o TornChecks(ts, ln, i + 1)
+  ELSE Classify(ts[i], ln, "C01", "C02", <<"crash inside this log write, torn at byte", ts[i].cut>>) \o TornChecks(ts, ln, i + 1)
 
 ProbeChecks(e, ln) ==
   IF ~Has(e, "probe") THEN <<>>
@@ -64,7 +83,11 @@ LogOrder(recs, last, ln) ==
        IN (IF bad THEN V("C08.log", ln, <<"record", r, "previous LSN of its transaction", IF known THEN last[r[2]] ELSE -1>>) ELSE <<>>)
           \o LogOrder(Tail(recs), IF r[1] >= 0 THEN Put(last, r[2], r[1]) ELSE last, ln)
 
-TInit == Init /\ l = 1 /\ viol = <<>>
+TInit == Init /\ l = 1 /\ viol = <<>> /\ durNew = {} /\ writers = {} /\ early = {}
+(* records of one log write: [lsn, txn, type, size, prevLSN, new page id] *)
+NewPagesOf(recs) == {recs[i][6] : i \in {j \in DOMAIN recs : Len(recs[j]) >= 6 /\ recs[j][3] = 9}}
+WritersOf(recs) == {recs[i][2] : i \in {j \in DOMAIN recs : recs[j][3] \in 1..5}}
+CommitsOf(recs) == {recs[i][2] : i \in {j \in DOMAIN recs : recs[j][3] = 7}}
 Stut == UNCHANGED cvars
 
 TNext ==
@@ -72,6 +95,7 @@ TNext ==
   /\ LET e == TraceLog[l] IN
      CASE e.ev = "Reset" -> /\ db' = {} /\ pend' = <<>> /\ st' = <<>> /\ owner' = <<>> /\ tid' = <<>>
                             /\ durMax' = -1 /\ durCommit' = {} /\ lastLsn' = <<>> /\ UNCHANGED viol
+                            /\ durNew' = {} /\ writers' = {} /\ early' = {}
        [] e.ev \in {"Ddl", "CkptStart", "CkptRet", "End", "StmtFail"} -> Stut /\ viol' = (IF e.ev = "StmtFail" THEN AddViol(viol, V("C01.refuse", l, <<e.res, e.sql>>)) ELSE viol)
        [] e.ev = "Begin" -> Begin(e.t, e.tid) /\ UNCHANGED viol
        [] e.ev = "Write" -> Write(e.t, [op |-> e.op, k |-> e.k, v |-> e.v]) /\ UNCHANGED viol
@@ -81,13 +105,22 @@ TNext ==
                                                            THEN V("C08.commit", l, <<e.t, "engine id", tid[e.t]>>) ELSE <<>>)
        [] e.ev = "AbortStart" -> AbortStart(e.t) /\ UNCHANGED viol
        [] e.ev = "AbortRet" -> AbortRet(e.t) /\ UNCHANGED viol
+       [] e.ev = "CommitDone" -> \* concurrent runs: marker emitted inside Commit after its log force returned
+                           /\ Stut /\ UNCHANGED <<viol, durNew, writers>>
+                           /\ early' = IF e.tid \in durCommit THEN early ELSE early \cup {e.tid}
        [] e.ev = "WLog" -> /\ WriteLog(e.recs)
+                           /\ durNew' = durNew \cup NewPagesOf(e.recs) /\ writers' = writers \cup WritersOf(e.recs) /\ UNCHANGED early
                            /\ viol' = AddViol(viol, (IF ~e.parsed THEN V("C08.log", l, <<"log write does not parse into complete records", e.bytes>>) ELSE <<>>)
-                                                    \o LogOrder(e.recs, lastLsn, l) \o ProbeChecks(e, l))
-       [] e.ev = "WPage" -> /\ Stut
+                                                    \o LogOrder(e.recs, lastLsn, l) \o ProbeChecks(e, l)
+                                                    \o (LET late == {t \in CommitsOf(e.recs) : t \in early /\ t \in writers \cup WritersOf(e.recs)} IN
+                                                        IF late # {} THEN V("C08.commit", l, <<"commit returned before this log write completed; engine ids", late>>) ELSE <<>>))
+       [] e.ev = "WPage" -> /\ Stut /\ UNCHANGED xvars
                             /\ viol' = AddViol(viol, (IF e.heap /\ e.lsn > durMax THEN V("C08.wal", l, <<"page", e.p, "page LSN", e.lsn, "durable up to", durMax>>) ELSE <<>>)
+                                                     \o (IF e.heap /\ Has(e, "next") /\ e.next >= 0 /\ e.next \notin durNew
+                                                           THEN V("C08.wal", l, <<"page", e.p, "links to page", e.next, "whose NewTablePage record is not durable; durable up to", durMax>>) ELSE <<>>)
                                                      \o ProbeChecks(e, l))
        [] e.ev = "GC" -> Stut /\ viol' = AddViol(viol, ProbeChecks(e, l))
+  /\ (TraceLog[l].ev \in {"Reset", "WLog", "CommitDone", "WPage"} \/ UNCHANGED xvars)
   /\ l' = l + 1
 
 TSpec == TInit /\ [][TNext]_tvars
